@@ -198,6 +198,7 @@ def run(ctx, res):
                 tc_in, tc_out = M.token_count([src]), M.token_count([out])
                 if tc_in != tc_out:
                     res.fail(key, 'token count changed by luamin: %d -> %d' % (tc_in, tc_out), inp)
+    cli_multi(ctx, res, rng)
     # CLI paths: p8tool luamin and build --lua-minify on a few carts
     from pico8 import tool
     from pico8.game import file as gfile
@@ -249,6 +250,50 @@ def run(ctx, res):
             if got.rstrip(b'\n') != direct.rstrip(b'\n'):
                 res.fail('C01:cli:' + hx(src)[:60], '%s output differs from LuaMinifyTokenWriter on the same code (wiring)' % what,
                          {'source': hx(src)}, observed=hx(got)[:200], expected=hx(direct)[:200])
+
+
+def cli_multi(ctx, res, rng):
+    """several carts on one `p8tool luamin` command line: each output holds its own cart's code"""
+    from pico8 import tool
+    from pico8.game import file as gfile
+    import contextlib
+    import io
+    for trial in range(ctx.budget(2, 10)):
+        carts, stored = [], []
+        for k in range(rng.choice([2, 3])):
+            src = b'-- cart %d of trial %d\nmarker%d_%d = %d\n' % (k, trial, trial, k, k) + gen_lua.gen_program(rng)[0]
+            ext = rng.choice(['.p8', '.p8.png'])
+            try:
+                g = U.make_game(rng=rng, code=src, version=8)
+            except Exception:
+                continue
+            pth = os.path.join(ctx.tmp, 'multi%d_%d%s' % (trial, k, ext))
+            gfile.to_file(g, pth)
+            carts.append(pth)
+            stored.append(b''.join(gfile.from_file(pth).lua.to_lines()))
+        if len(carts) < 2:
+            continue
+        with U.quiet(), contextlib.redirect_stdout(io.StringIO()), contextlib.redirect_stderr(io.StringIO()):
+            try:
+                rc = tool.main(['-q', 'luamin'] + carts)
+            except Exception as e:
+                rc = 'raised %r' % (e,)
+        res.evaluations += 1
+        res.count('cli-multi-cart')
+        res.nontrivial.add(('cli-multi', trial, len(carts)))
+        for pth, code in zip(carts, stored):
+            ext = '.p8.png' if pth.endswith('.p8.png') else '.p8'
+            outp = pth[:-len(ext)] + '_fmt' + ext
+            key = 'C01:cli-multi:%d:%s' % (trial, os.path.basename(pth))
+            if rc != 0 or not os.path.exists(outp):
+                res.fail(key, 'p8tool luamin with %d carts failed or wrote no %s (rc=%s)' % (len(carts), os.path.basename(outp), rc), {'carts': [os.path.basename(c) for c in carts]})
+                break
+            got = b''.join(gfile.from_file(outp).lua.to_lines())
+            want = M.minify([code], 'default')
+            if got.rstrip(b'\n') != want.rstrip(b'\n'):
+                res.fail(key, 'p8tool luamin with %d carts: %s does not hold the minified code of %s' % (len(carts), os.path.basename(outp), os.path.basename(pth)),
+                         {'carts': [os.path.basename(c) for c in carts]}, observed=hx(got)[:160], expected=hx(want)[:160])
+                break
 
 
 def replay(ctx, rep, res):
